@@ -18,6 +18,9 @@ pub enum Src {
         upper_hex: bool,
         surrogate: bool,
         trailing: String,
+        /// corrupt a hex field, keeping its byte length: (field 0 id / 1 pubkey / 2 sig, position, what)
+        #[serde(default)]
+        hex_corrupt: Option<(u8, u16, u8)>,
     },
     Raw {
         text: Bytes,
@@ -43,8 +46,31 @@ pub fn render_case(src: &Src) -> Vec<u8> {
             upper_hex,
             surrogate,
             trailing,
+            hex_corrupt,
         } => {
             let mut ev = ev.clone();
+            if let Some((field, pos, what)) = hex_corrupt {
+                let f: &mut String = match field % 3 {
+                    0 => &mut ev.id,
+                    1 => &mut ev.pubkey,
+                    _ => &mut ev.sig,
+                };
+                if f.is_ascii() && f.len() >= 4 {
+                    let i = ((*pos as usize) * (f.len() - 1)) >> 16;
+                    // two-byte characters replace two hex digits, one-byte ones replace one
+                    let rep: &str = match what % 8 {
+                        0 => "ñ",  // C3 B1
+                        1 => "ð",  // C3 B0
+                        2 => "ù",  // C3 B9
+                        3 => "Ā",  // C4 80
+                        4 => "g",
+                        5 => " ",
+                        6 => "¡",  // C2 A1
+                        _ => "ÿ",  // C3 BF
+                    };
+                    f.replace_range(i..i + rep.len(), rep);
+                }
+            }
             if *upper_hex {
                 ev.id = ev.id.to_uppercase();
                 ev.sig = ev.sig.to_uppercase();
@@ -361,6 +387,7 @@ impl Prop for C01 {
                     upper_hex: false,
                     surrogate: false,
                     trailing: String::new(),
+                    hex_corrupt: None,
                 },
                 buf: (n % 11) as u8,
                 fill: 0,
@@ -381,6 +408,7 @@ impl Prop for C01 {
                     upper_hex: false,
                     surrogate: false,
                     trailing: String::new(),
+                    hex_corrupt: None,
                 },
                 buf: 10,
                 fill: 0xff,
@@ -397,6 +425,7 @@ impl Prop for C01 {
                         upper_hex: false,
                         surrogate: false,
                         trailing: String::new(),
+                        hex_corrupt: None,
                     },
                     buf: 10,
                     fill: 0,
@@ -429,8 +458,9 @@ impl Prop for C01 {
             ],
             0u8..12,
             prop_oneof![Just(0u8), Just(0xffu8), any::<u8>()],
+            prop::option::weighted(0.06, (0u8..3, any::<u16>(), 0u8..8)),
         )
-            .prop_map(|(ev, plan, kind_txt, created_txt, upper_hex, surrogate, trailing, buf, fill)| Case {
+            .prop_map(|(ev, plan, kind_txt, created_txt, upper_hex, surrogate, trailing, buf, fill, hex_corrupt)| Case {
                 src: Src::Model {
                     ev,
                     plan,
@@ -439,6 +469,7 @@ impl Prop for C01 {
                     upper_hex,
                     surrogate,
                     trailing,
+                    hex_corrupt,
                 },
                 buf,
                 fill,
@@ -466,9 +497,13 @@ impl Prop for C01 {
             kind_txt,
             created_txt,
             trailing,
+            hex_corrupt,
             ..
         } = &case.src
         {
+            if hex_corrupt.is_some() {
+                out.label("hex-field-corrupted");
+            }
             if plan.order.iter().enumerate().any(|(i, x)| *x as usize != i) {
                 diffs += 1;
                 out.label("reordered");
